@@ -51,6 +51,10 @@ func build(c *ecase, text string) *profile.Profile {
 		// a string label whose weights cancel while the numeric labels under it do not
 		{Locs: []vlib.ALoc{lf}, Vals: []int64{4, 40}, Lab: []vlib.ASLab{{K: "key", V: []string{"cancel"}}}, Num: []vlib.ANLab{{K: "bytes", V: []int64{64}, U: []string{"bytes"}}}},
 		{Locs: []vlib.ALoc{lf}, Vals: []int64{-4, -40}, Lab: []vlib.ASLab{{K: "key", V: []string{"cancel"}}}, Num: []vlib.ANLab{{K: "bytes", V: []int64{128}, U: []string{"bytes"}}}},
+		// under -mean (value / count) a tag with a large weight can round to nothing and is then left out, while a
+		// lighter one with numeric labels under it is drawn
+		{Locs: []vlib.ALoc{lf}, Vals: []int64{1000, 100}, Lab: []vlib.ASLab{{K: "key", V: []string{"heavy"}}}},
+		{Locs: []vlib.ALoc{lf}, Vals: []int64{1, 50}, Lab: []vlib.ASLab{{K: "key", V: []string{"light"}}}, Num: []vlib.ANLab{{K: "bytes", V: []int64{32}, U: []string{"bytes"}}}},
 		// a function that is negative overall, called from a kept one (with -drop_negative it leaves the graph)
 		{Locs: []vlib.ALoc{{Map: m, Rel: 12, Lines: []vlib.ALine{{Fn: vlib.AFn{Name: "neg", Sys: "neg", File: "n.c"}, Line: 5}}}, lf}, Vals: []int64{-2, -9}},
 		// an unsymbolized location: its node is labelled with the binary name
@@ -183,6 +187,9 @@ func one(raw json.RawMessage, c *ecase, i int) {
 	}
 	if i%3 == 0 {
 		args = append(args, "-drop_negative")
+	}
+	if i%4 == 1 {
+		args = append(args, "-mean")
 	}
 	r := render(p, args...)
 	key := c.Site + "|" + strings.Join(c.Payload, "") + "|" + c.Opt.Gran + fmt.Sprint(c.Opt.CallTree)
